@@ -268,8 +268,7 @@ Section Spec.
                      exists y', exec (S fuel) (INew t (NScalar v) b sp) x = err_through e y' t) /\
       (* fold over a scalar: an error of the body *)
       (forall t it iter b last sp x itb, create_fold_iterable x it = POk (FoldOver itb) ->
-                     let x1 := set_canons (set_scalars x (Scalars.meet_fold_start vagg (x_scalars x)))
-                                          (Scalars.meet_fold_start canon_wp (x_canons x)) in
+                     let x1 := all_fold_start x in
                      iter_get (x_iterables x1) (v_name iter) = None ->
                      exec fuel b (set_iterables x1 (iter_put (x_iterables x1) (v_name iter)
                               {| fs_iterable := itb; fs_type := IterScalar; fs_body := b; fs_last := last; fs_back_started := false |})) = XErr e y ->
